@@ -64,3 +64,73 @@ def _():
     ensures("num_scales", _PYRAMID_NUM_SCALES == 2 and applies_default("check_conf", "num_scales", "_PYRAMID_NUM_SCALES"))
     ensures("scale_factor", _PYRAMID_SCALE_FACTOR == 2 and applies_default("check_conf", "scale_factor", "_PYRAMID_SCALE_FACTOR"))
     ensures("marge", _PYRAMID_MARGE == 1 and applies_default("check_conf", "marge", "_PYRAMID_MARGE"))
+
+
+# ---------------------------------------------------------------------------------------------------------------------
+# C05, second sentence: "A parameter value outside its documented domain (even window or filter size, census window not 3/5,
+# subpix not 1 or even, non-positive cbca/sigma/eta, scales < 2 ...) is rejected ..., and every value inside the domain is accepted."
+# Each check_conf validates its parameters with a json_checker schema entry And(<type>, <lambda>).  Obligation per parameter, for
+# EVERY value of the type (integers are mathematical, floats include NaN and the infinities): the predicate of the real schema
+# entry (re-read from the class on every run, evaluated with Python semantics) holds exactly on the domain written here from the
+# property statement.  json_checker itself is assumed (And(T, f) accepts x iff isinstance(x, T) and bool(f(x))); that check_conf
+# applies the schema is exercised by the bounded stand-in.
+
+@tables("pandora.matching_cost.matching_cost.AbstractMatchingCost", props=["C05"])
+def _():
+    domain("subpix", "int", lambda x: x == 1 or (x > 0 and x % 2 == 0))
+
+
+@tables("pandora.matching_cost.sad_ssd.SadSsd", props=["C05"])
+def _():
+    domain("window_size", "int", lambda x: x > 0 and x % 2 == 1)
+
+
+@tables("pandora.matching_cost.zncc.Zncc", props=["C05"])
+def _():
+    domain("window_size", "int", lambda x: x > 0 and x % 2 == 1)
+
+
+@tables("pandora.matching_cost.census.Census", props=["C05"])
+def _():
+    domain("window_size", "int", lambda x: x == 3 or x == 5)
+
+
+@tables("pandora.aggregation.cbca.CrossBasedCostAggregation", props=["C05"])
+def _():
+    domain("cbca_intensity", "float", lambda x: x > 0)
+    domain("cbca_distance", "int", lambda x: x > 0)
+
+
+@tables("pandora.filter.median.MedianFilter", props=["C05"])
+def _():
+    domain("filter_size", "int", lambda x: x >= 1 and x % 2 == 1)
+
+
+@tables("pandora.filter.median_for_intervals.MedianForIntervalsFilter", props=["C05"])
+def _():
+    domain("filter_size", "int", lambda x: x >= 1 and x % 2 == 1)
+
+
+@tables("pandora.filter.bilateral.BilateralFilter", props=["C05"])
+def _():
+    domain("sigma_color", "float", lambda x: x > 0)
+    domain("sigma_space", "float", lambda x: x > 0)
+
+
+@tables("pandora.cost_volume_confidence.ambiguity.Ambiguity", props=["C05"])
+def _():
+    domain("eta_max", "float", lambda x: 0 < x and x < 1)
+    domain("eta_step", "float", lambda x: 0 < x and x < 1)
+
+
+@tables("pandora.cost_volume_confidence.risk.Risk", props=["C05"])
+def _():
+    domain("eta_max", "float", lambda x: 0 < x and x < 1)
+    domain("eta_step", "float", lambda x: 0 < x and x < 1)
+
+
+@tables("pandora.multiscale.fixed_zoom_pyramid.FixedZoomPyramid", props=["C05"])
+def _():
+    domain("num_scales", "int", lambda x: x >= 2)
+    domain("scale_factor", "int", lambda x: x >= 2)
+    domain("marge", "int", lambda x: x >= 0)
